@@ -96,6 +96,10 @@ def add_seqtrack(u):
             C('C05.seqtrack.is_valid.same_seq_and_within_5s', 'r == self.remembers(seq, current_time_ms)')]),
     ]))
     u.add(impl_block('SequenceTracker', [
+        u.fn(SQ, 'new', impl='SequenceTracker', sub='seqtrack', ret='r', props=(),
+             post_rewrite=[('SequenceTrackingEntry::default()', 'seq_entry_default()', 1)],
+             ensures=[C('C05.seqtrack.new.remembers_nothing', 'forall|i: int| 0 <= i < 16384 ==> (#[trigger] r.entries@[i]).conn_id == 0 && r.entries@[i].timestamp_ms == 0 && r.entries@[i].seq == 0'),
+                      'r.count == 0']),
         u.fn(SQ, 'insert', impl='SequenceTracker', sub='seqtrack', props=(), ensures=[
             C('C05.seqtrack.insert.overwrites_exactly_one_slot', '''final(self).entries@[seq_slot(seq)].conn_id == conn_id && final(self).entries@[seq_slot(seq)].timestamp_ms == timestamp_ms
             && final(self).entries@[seq_slot(seq)].seq == seq
